@@ -141,6 +141,7 @@ TRet ==
             \/ /\ ReturnEn(st, T.cid) /\ st.calls[T.cid].res.status = 0
                /\ st' = ReturnDo(st, T.cid)
             \/ /\ AbortEn(st, T.cid)
+               /\ ~T.detc            \* (a request sent by a helper that outlives the process does not break with it)
                /\ LET p == <<IF T.who = "rt" THEN RtBase ELSE T.who, T.gen>> IN
                   p \in DOMAIN st.procs /\ st.procs[p].st = "dead"
                /\ st' = AbortDo(st, T.cid)
